@@ -9,6 +9,7 @@
 From Coq Require Import String List Bool Arith.
 From LNC Require Import TablesGen Tables.
 From LNC Require MailboxTables.
+From LNC Require Reconnect ReconnectProofs.
 Import ListNotations.
 
 Theorem c12_every_blocking_select_is_woken_by_close : uncovered_selects = [].
@@ -51,3 +52,33 @@ Example c12_detector_detects :
   covered ("f", false, ["g.receivedACKSignal"; "g.resendSignal"]) = false /\
   covered ("f", false, ["g.receivedACKSignal"; "g.quit"]) = true /\ covered ("f", true, []) = true.
 Proof. vm_compute. repeat split; reflexivity. Qed.
+
+(* "Close may be called any number of times ... at any moment": over the consecutive connections of one session
+   (Model/Reconnect.v: every handshake hands out a handle, handles are closed in any order, any number of times,
+   also after later connections exist). A second Close of a handle changes nothing, a Close closes the connection it
+   was called on, and every connection stays open until its own handle is closed *)
+Theorem c12_close_twice_is_close_once : forall st k,
+  Reconnect.cstep false (Reconnect.cstep false st (Reconnect.CClose k)) (Reconnect.CClose k)
+  = Reconnect.cstep false st (Reconnect.CClose k).
+Proof. exact ReconnectProofs.close_twice_is_close_once. Qed.
+Print Assumptions c12_close_twice_is_close_once.
+
+Theorem c12_close_closes_its_own_connection : forall st k,
+  k < length st -> nth k (Reconnect.cstep false st (Reconnect.CClose k)) false = false.
+Proof. exact ReconnectProofs.close_closes_its_own. Qed.
+Print Assumptions c12_close_closes_its_own_connection.
+
+Theorem c12_connection_open_until_its_own_close : forall evs j,
+  j < Reconnect.handshakes evs -> ~ In (Reconnect.CClose j) evs ->
+  nth j (Reconnect.crun false [] evs) false = true.
+Proof. exact ReconnectProofs.connection_open_until_its_own_close. Qed.
+Print Assumptions c12_connection_open_until_its_own_close.
+
+(* with the session's one shared object as every handle (the code before fix 1556a75) a second Close of
+   connection 0 closes connection 1 *)
+Theorem c12_shared_handle_close_refuted :
+  ~ In (Reconnect.CClose 1) [Reconnect.CHandshake; Reconnect.CClose 0; Reconnect.CHandshake; Reconnect.CClose 0] /\
+  nth 1 (Reconnect.crun true [] [Reconnect.CHandshake; Reconnect.CClose 0; Reconnect.CHandshake; Reconnect.CClose 0]) false = false /\
+  nth 1 (Reconnect.crun false [] [Reconnect.CHandshake; Reconnect.CClose 0; Reconnect.CHandshake; Reconnect.CClose 0]) false = true.
+Proof. exact ReconnectProofs.shared_close_refuted. Qed.
+Print Assumptions c12_shared_handle_close_refuted.
